@@ -5,6 +5,27 @@ import (
 	"strings"
 )
 
+// chainAst is the AST of "{%<letters>= v|m1|m2… %}": each m is `name` or `name(a, b)`; a trailing raw is the print's flag.
+func chainAst(letters string, chain []string) []TNode {
+	p := Print{Letters: letters, Path: "v"}
+	for i, m := range chain {
+		if m == "raw" && i == len(chain)-1 {
+			p.Raw = true
+			break
+		}
+		mc := ModCall{Name: m}
+		if j := strings.IndexByte(m, '('); j >= 0 && strings.HasSuffix(m, ")") {
+			mc.Name = m[:j]
+			mc.Args = []string{}
+			if inner := m[j+1 : len(m)-1]; inner != "" {
+				mc.Args = strings.Split(inner, ", ")
+			}
+		}
+		p.Mods = append(p.Mods, mc)
+	}
+	return []TNode{p}
+}
+
 func init() {
 	props["C11"] = func(r *Run) {
 		r.Rule = "ALL directive strings over {h,a,j,q,J,u,l,c} up to length 4 (4680) on rotating input strings, plus random directives up to length 6; modifier chains up to length 3 over default / ifThen / ifThenElse / the escape modifiers / " +
@@ -39,7 +60,7 @@ func init() {
 		for di, d := range dirs {
 			for k := 0; k < nIn; k++ {
 				in := inputs[(di+k*3)%len(inputs)]
-				c := &RCase{Tpls: []TplDef{{Key: "main", Src: "{%" + d + "= v %}", KeepFmt: true}}, Meta: map[string]any{"directive": d, "input": in}}
+				c := &RCase{Tpls: []TplDef{{Key: "main", Src: "{%" + d + "= v %}", KeepFmt: true, Ast: []TNode{Print{Letters: d, Path: "v"}}}}, Meta: map[string]any{"directive": d, "input": in}}
 				op := SOp{Kind: "static", Name: "v", Val: in}
 				switch (di + k) % 3 {
 				case 1:
@@ -52,6 +73,11 @@ func init() {
 				r.Dist[fmt.Sprintf("dirlen:%d", len(d))]++
 			}
 		}
+		// precision directives f.N / F.N (floorPrec / ceilPrec), alone and next to escape letters: tied to the parser
+		// oracle only (asttie.go); their arithmetic is C20's subject
+		for _, d := range []string{"f.1", "F.1", "f.3", "F.9", "f.10", "f.12", "F.15", "hf.2", "f.2h", "uf.12", "F.11jj", "qqf.0"} {
+			tieTemplates(r, []TplDef{{Key: "main", Src: "{%" + d + "= v %}", KeepFmt: true, Ast: []TNode{Print{Letters: d, Path: "v"}}}})
+		}
 		r.Exhaustive = true
 		// chains
 		mods := []string{`default("dd")`, "default(w)", "default(0)", `ifThen("T")`, "ifThen(w)", `ifThenElse("T", "F")`, "ifThenElse(w, v)", "jsonEscape", "jsonQuote", "htmlEscape", "urlEncode", "linkEscape",
@@ -59,11 +85,17 @@ func init() {
 		vals := []SOp{{Kind: "static", Name: "v", Val: "a<b"}, {Kind: "static", Name: "v", Val: ""}, {Kind: "static", Name: "v", Val: int64(0)}, {Kind: "static", Name: "v", Val: int64(-5)},
 			{Kind: "static", Name: "v", Val: uint64(0)}, {Kind: "static", Name: "v", Val: float64(0)}, {Kind: "static", Name: "v", Val: 2.5}, {Kind: "static", Name: "v", Val: true}, {Kind: "static", Name: "v", Val: false},
 			{Kind: "bytes", Name: "v", Val: []byte("by\"tes")}, {Kind: "bytes", Name: "v", Val: []byte{}}, {Kind: "static", Name: "v", Val: []byte{}}, {Kind: "static", Name: "v", Val: nil}, {Kind: "counter", Name: "v", Val: 0}, {Kind: "counter", Name: "v", Val: 3},
-			{Kind: "static", Name: "zz", Val: int64(1)}}
+			{Kind: "static", Name: "zz", Val: int64(1)},
+			// tiny non-zero floats are not empty
+			{Kind: "static", Name: "v", Val: 1e-12}, {Kind: "static", Name: "v", Val: -2.5e-10}, {Kind: "static", Name: "v", Val: 5e-324}, {Kind: "static", Name: "v", Val: float32(1e-12)}}
 		ws := []SOp{{Kind: "static", Name: "w", Val: "W&w"}, {Kind: "bytes", Name: "w", Val: []byte("Wb")}, {Kind: "static", Name: "w", Val: int64(9)}}
+		first := "" // an earlier print on the same context (leaves its output in the modifier buffers)
 		addChain := func(chain []string, vi, wi int, letters string) {
-			src := "{%" + letters + "= v|" + strings.Join(chain, "|") + " %}"
+			src := first + "{%" + letters + "= v|" + strings.Join(chain, "|") + " %}"
 			c := &RCase{Tpls: []TplDef{{Key: "main", Src: src, KeepFmt: true}}, Meta: map[string]any{"chain": chain}}
+			if ast := chainAst(letters, chain); first == "" && Source(ast) == src {
+				c.Tpls[0].Ast = ast // parser oracle (asttie.go)
+			}
 			c.Ops = []SOp{vals[vi], ws[wi], {Kind: "render", Key: "main"}}
 			cases = append(cases, c)
 			r.Dist[fmt.Sprintf("chainlen:%d", len(chain))]++
@@ -83,6 +115,24 @@ func init() {
 		for i := 0; i < r.N(3000, 100000); i++ {
 			addChain([]string{pick(r, mods), pick(r, mods), pick(r, mods)}, r.Rng.Intn(len(vals)), r.Rng.Intn(len(ws)), pick(r, []string{"", "", "u", "a", "hh", "cJ"}))
 		}
+		// a second print after a first one that went through a modifier: no output of the first may resurface
+		// (every escape letter / modifier on every value, empty and missing ones included)
+		for _, f := range []string{"{%= w|jsonEscape %}|", "{%q= w %}|", "{%h= w %}{%u= w %}|", "{%= w|default(\"x\") %}-"} {
+			first = f
+			for vi := range vals {
+				for _, l := range []string{"q", "qq", "j", "h", "u", "a", "l", "c", "J"} {
+					src := first + "{%" + l + "= v %}"
+					c := &RCase{Tpls: []TplDef{{Key: "main", Src: src, KeepFmt: true}}, Meta: map[string]any{"second-print": l}}
+					c.Ops = []SOp{vals[vi], ws[vi%len(ws)], {Kind: "render", Key: "main"}}
+					cases = append(cases, c)
+					r.Dist["second-print"]++
+				}
+				for i, m := range mods {
+					addChain([]string{m}, vi, (i+vi)%len(ws), "")
+				}
+			}
+		}
+		first = ""
 		runSessions(r, cases, outputDiffers)
 	}
 }
